@@ -464,6 +464,58 @@ def r19_11(ctx, rep):
            "blanked by to_dict() and never restored by load_model" % attr, path=cfg.describe(w) if w else "")
 
 
+PASS_THROUGH = ("outputs", "delay_states", "alias_relation", "string_constants", "string_parameters")
+VALUE_CHANGING_FLAGS = ("-ffast-math", "-Ofast", "-funsafe-math-optimizations", "-ffinite-math-only", "-fno-signed-zeros", "-freciprocal-math", "-fassociative-math",
+                        "-fno-trapping-math", "-fcx-limited-range", "/fp:fast", "-ffp-contract=fast", "-mrecip")
+
+
+@SPEC.rule(
+    "R19.12",
+    "what is stored verbatim is restored verbatim: load_model assigns outputs, delay_states, alias_relation, string_constants and "
+    "string_parameters exactly the value found under the same key of the cache — not a filtered, re-ordered or `cleaned` version (an output "
+    "eliminated as an alias is in no variable list and still is an output of the fresh model); and the flags _codegen_model hands to the C "
+    "compiler contain nothing that changes floating-point results (-ffast-math and its parts: fmin/fmax then propagate NaN where CasADi ignores it)",
+)
+def r19_12(ctx, rep):
+    R = "R19.12"
+    fn = api_fn(ctx, "load_model", R)
+    site = API + ":load_model"
+    found = 0
+    for st in walk_local(fn):
+        if isinstance(st, ast.Assign) and len(st.targets) == 1 and isinstance(st.targets[0], ast.Attribute) and st.targets[0].attr in PASS_THROUGH \
+                and not isinstance(st.targets[0].value, ast.Subscript):
+            f = st.targets[0].attr
+            found += 1
+            v = st.value
+            ok = isinstance(v, ast.Subscript) and isinstance(v.value, ast.Name) and subscript_text(v) == f
+            rep.ob(R, site, "model.%s is the stored value" % f, ok,
+                   "`%s` does not restore the cached value as it is: the cached model's %s differs from the fresh model's" % (norm(st)[:80], f))
+    if found < len(PASS_THROUGH):
+        raise MechanismMissing(R, "load_model restores only %d of the %d verbatim fields" % (found, len(PASS_THROUGH)))
+    cg = api_fn(ctx, "_codegen_model", R)
+    flags = [c.value for c in ast.walk(cg) if isinstance(c, ast.Constant) and isinstance(c.value, str) and (c.value.startswith("-") or c.value.startswith("/"))]
+    if len(flags) < 3:
+        raise MechanismMissing(R, "compiler / linker flags not found in _codegen_model")
+    bad = [f for f in flags if any(f == d or f.startswith(d + "=") or f.lower() == d.lower() for d in VALUE_CHANGING_FLAGS)]
+    rep.ob(R, API + ":_codegen_model", "no value-changing floating-point flag among %d compiler flags" % len(flags), not bad,
+           "%s lets the C compiler assume no NaN/Inf and reorder arithmetic: the compiled residual and metadata functions differ from the CasADi-evaluated ones "
+           "wherever a NaN parameter (pymoca's default for an unset parameter) meets fmin/fmax" % bad)
+
+
+def subscript_text(v):
+    s = v.slice
+    return s.value if isinstance(s, ast.Constant) and isinstance(s.value, str) else None
+
+
+@SPEC.rule(
+    "R19.13",
+    "every row and column of the cached metadata is addressed by the variable and attribute it belongs to: no function of the CasADi API reads a for-loop's variable after that loop has ended (the value the last iteration left behind)",
+)
+def r19_13(ctx, rep):
+    from ._literal import no_stale_loop_variables
+    no_stale_loop_variables(ctx, rep, "R19.13", API, "the CasADi API")
+
+
 # -- seeded variants ---------------------------------------------------------
 from ._mut import delete_stmt_where, replace_in_func  # noqa: E402
 
@@ -560,3 +612,15 @@ def _m_const_mx(mod):
         return False
 
     return mod if replace_in_func(mod, "save_model", edit) else None
+
+
+@SPEC.mutant("cached outputs filtered by the loaded variables", API, "R19.12", "is the stored value")
+def _m_filter_outputs(mod):
+    def edit(fn):
+        for st in ast.walk(fn):
+            if isinstance(st, ast.Assign) and norm(st.targets[0]).endswith(".outputs") and isinstance(st.value, ast.Subscript):
+                st.value = ast.parse("[n for n in db['outputs'] if n in variable_dict]", mode="eval").body
+                return True
+        return False
+
+    return mod if replace_in_func(mod, "load_model", edit) else None
